@@ -53,7 +53,7 @@ func Parse(str string) (Selector, error) {
 			if len(sel) > 0 && sel[len(sel)-1].Identity() {
 				return nil, newParseError("selector contains unsupported recursive descent segment: '..'", str, col, tok)
 			}
-			sel = append(sel, segment{str: ".", identity: true})
+			sel = append(sel, segment{str: tok, identity: true, optional: opt})
 
 		case seg == "[]":
 			sel = append(sel, segment{str: tok, optional: opt, iterator: true})
@@ -74,7 +74,7 @@ func Parse(str string) (Selector, error) {
 				sel = append(sel, segment{str: tok, optional: opt, index: idx})
 
 			// explicit field, ["abcd"]
-			case strings.HasPrefix(lookup, "\"") && strings.HasSuffix(lookup, "\""):
+			case len(lookup) >= 2 && strings.HasPrefix(lookup, "\"") && strings.HasSuffix(lookup, "\""):
 				fieldName := lookup[1 : len(lookup)-1]
 				if strings.Contains(fieldName, ":") {
 					return nil, newParseError(fmt.Sprintf("invalid segment: %s", seg), str, col, tok)
@@ -166,7 +166,9 @@ func tokenize(str string) []string {
 		col++
 	}
 
-	if ofs < col && ctx != "\"" {
+	// The tail is always a token, even inside an unterminated quoted string:
+	// Parse then rejects it as an invalid segment instead of silently dropping it.
+	if ofs < col {
 		toks = append(toks, str[ofs:col])
 	}
 
